@@ -74,7 +74,6 @@ fn main() {
     for p in &pats {
         compiled.push(Regex::new(p["raw"].as_str().unwrap()).ok());
     }
-    let compiled = Arc::new(compiled);
     let texts = Arc::new(texts);
     let mut cells: Vec<(usize, usize)> = Vec::new();
     for (k, t) in texts.iter().enumerate() {
@@ -84,22 +83,45 @@ fn main() {
         cells.push((k, t.len()));
     }
     let cells = Arc::new(cells);
+    // A second set of regexes with the backtrack limit set to EXACTLY what the pattern needs single-threaded (maximum over all
+    // cells, read from the hook statistics): sequentially every call still succeeds, so any interference between concurrent
+    // searches in the limit accounting shows up as a spurious error row.
+    let mut limited: Vec<Option<Regex>> = Vec::new();
+    for (i, re) in compiled.iter().enumerate() {
+        let mut bmax = 0usize;
+        if let Some(re) = re {
+            for &(k, p) in cells.iter() {
+                let _ = re.captures_from_pos(&texts[k], p);
+                bmax = bmax.max(fancy_regex::internal::verif::last_stats().backtracks);
+            }
+        }
+        limited.push(fancy_regex::RegexBuilder::new(pats[i]["raw"].as_str().unwrap()).backtrack_limit(bmax).build().ok());
+    }
+    let compiled = Arc::new(compiled);
+    let limited = Arc::new(limited);
     let barrier = Arc::new(Barrier::new(threads));
     let mut handles = Vec::new();
     for th in 0..threads {
-        let (compiled, texts, cells, barrier) = (compiled.clone(), texts.clone(), cells.clone(), barrier.clone());
+        let (compiled, limited, texts, cells, barrier) = (compiled.clone(), limited.clone(), texts.clone(), cells.clone(), barrier.clone());
         handles.push(std::thread::spawn(move || {
             let mut rng = rand::rngs::StdRng::seed_from_u64(seed * 1000 + th as u64);
             // odd threads work on their own clones, even threads on the shared objects
             let own: Vec<Option<Regex>> = if th % 2 == 1 { compiled.iter().cloned().collect() } else { Vec::new() };
+            let own_limited: Vec<Option<Regex>> = if th % 2 == 1 { limited.iter().cloned().collect() } else { Vec::new() };
             let mut seen: Vec<BTreeSet<Vec<i64>>> = vec![BTreeSet::new(); compiled.len()];
             let mut ncalls = 0usize;
             barrier.wait();
-            for _ in 0..rounds {
+            for round in 0..rounds {
                 let mut order: Vec<usize> = (0..compiled.len()).collect();
                 order.shuffle(&mut rng);
                 for pi in order {
-                    let re = if th % 2 == 1 { own[pi].as_ref() } else { compiled[pi].as_ref() };
+                    // odd rounds use the regexes with the exact backtrack limit
+                    let re = match (th % 2 == 1, round % 2 == 1) {
+                        (true, false) => own[pi].as_ref(),
+                        (true, true) => own_limited[pi].as_ref(),
+                        (false, false) => compiled[pi].as_ref(),
+                        (false, true) => limited[pi].as_ref(),
+                    };
                     let re = match re {
                         Some(r) => r,
                         None => continue,
